@@ -3,7 +3,7 @@
 From Coq Require Import String.
 From Coq Require Import ZArith List Bool.
 From LasV Require Import Lib.Base Lib.Layout Gen.GenHeaderLayout Gen.GenKnown Spec.Asprs Model.Las Model.LasSpec
-  Proofs.AsprsLayoutProofs Proofs.VlrProofs Model.Known Proofs.KnownProofs.
+  Proofs.AsprsLayoutProofs Proofs.VlrProofs Model.Known Proofs.KnownProofs Proofs.KnownIOProofs.
 Import ListNotations.
 Open Scope list_scope.
 Open Scope Z_scope.
@@ -238,6 +238,69 @@ Theorem C08_writer_ops_modelled : writer_header_ops = modelled_writer_header_ops
 Proof. exact writer_ops_modelled. Qed.
 Print Assumptions C08_writer_ops_modelled.
 
+(* ---------------- every way of reading ---------------- *)
+(* a 1.4 file written by anything: VLRs behind the header, points, ANY bytes between the last point and the first
+   EVLR (gap), the EVLRs where the header says, any bytes behind them: both lists are read, in order *)
+Theorem C08_file_read_located : forall hs off vl pts gap el tail vb eb,
+  forallb (wf_vlr false) vl = true -> forallb (wf_vlr true) el = true ->
+  enc_vlrs false vl = Ok vb -> enc_vlrs true el = Ok eb ->
+  read_file hs true (mkLoc (len vl) off (len el) (hs + len vb + len pts + len gap)) (vb ++ pts ++ gap ++ eb ++ tail)
+  = Ok (map vlr_factory vl, Some (map vlr_factory el)).
+Proof. exact file_read_located. Qed.
+Print Assumptions C08_file_read_located.
+
+(* read_file = a source that can seek (laspy.read / laspy.open on a path, bytes or stream, EVLRs loaded at opening or
+   deferred to read() / read_evlrs(), LasHeader.read_from, mmap); read_file_from = a source that can only be read
+   forward and stands at pos when the EVLRs are wanted. On every file, from every position between the end of the
+   header and the first EVLR, the two give the same lists (or fail alike) *)
+Theorem C08_read_routes_agree : forall hs v14 loc pos body, hs <= pos -> pos <= l_estart loc ->
+  read_file_from hs v14 loc pos body = read_file hs v14 loc body.
+Proof. exact read_routes_agree. Qed.
+Print Assumptions C08_read_routes_agree.
+
+(* ---------------- append sessions as a way of writing ---------------- *)
+(* LasAppender on a file laid out as VLRs, points, anything (gap, old EVLRs, more): whatever is appended (nothing,
+   empty chunks, points) and whatever list .evlrs holds at close (kel), the file left is the one LasWriter writes
+   from scratch for the records that were read, all the points and that list *)
+Theorem C08_append_as_write : forall hs v14 loc vl vb vl' vb' pts trailing newpts kel,
+  forallb (wf_vlr false) vl = true -> enc_vlrs false vl = Ok vb ->
+  l_nvlr loc = len vl -> l_offset loc = hs + len vb -> 0 <= l_nevlr loc ->
+  kv_records (map vlr_factory vl) = Ok vl' -> enc_vlrs false vl' = Ok vb' -> len vb' = len vb ->
+  (v14 = false \/ (l_nevlr loc = 0 /\ opt_list kel = []) -> trailing = [] /\ l_estart loc = 0) ->
+  append_file hs v14 loc (vb ++ pts ++ trailing) (len pts) newpts kel
+  = write_file_known hs v14 loc (map vlr_factory vl) (pts ++ newpts) (if v14 then kel else None).
+Proof. exact append_as_write. Qed.
+Print Assumptions C08_append_as_write.
+
+Theorem C08_append_roundtrip : forall hs loc vl vb vl' vb' pts trailing newpts kel el' loc' body',
+  forallb (wf_vlr false) vl = true -> enc_vlrs false vl = Ok vb ->
+  l_nvlr loc = len vl -> l_offset loc = hs + len vb -> 0 <= l_nevlr loc ->
+  kv_records (map vlr_factory vl) = Ok vl' -> forallb (wf_vlr false) vl' = true ->
+  enc_vlrs false vl' = Ok vb' -> len vb' = len vb ->
+  (l_nevlr loc = 0 /\ opt_list kel = [] -> trailing = [] /\ l_estart loc = 0) ->
+  kv_records (opt_list kel) = Ok el' -> forallb (wf_vlr true) el' = true ->
+  append_file hs true loc (vb ++ pts ++ trailing) (len pts) newpts kel = Ok (loc', body') ->
+  read_file hs true loc' body' = Ok (map vlr_factory vl, Some (map vlr_factory el'))
+  /\ exists eb, enc_vlrs true el' = Ok eb /\ body' = vb' ++ (pts ++ newpts) ++ eb
+     /\ l_nevlr loc' = len el' /\ (el' <> [] -> l_estart loc' = hs + len vb' + len (pts ++ newpts)).
+Proof. exact append_roundtrip. Qed.
+Print Assumptions C08_append_roundtrip.
+
+Theorem C08_append_keeps_read_records : forall el el', forallb (wf_vlr true) el = true ->
+  kv_records (map vlr_factory el) = Ok el' ->
+  map vlr_factory el' = map vlr_factory el /\ map v_uid el' = map v_uid el /\ map v_rid el' = map v_rid el
+  /\ map v_desc el' = map v_desc el.
+Proof. exact append_keeps_read_records. Qed.
+Print Assumptions C08_append_keeps_read_records.
+
+(* VLRs that would not serialise to the room they have: refused, never a file with other records *)
+Theorem C08_append_refused_resized : forall hs v14 loc vl vb vl' vb' rest npts newpts kel,
+  forallb (wf_vlr false) vl = true -> enc_vlrs false vl = Ok vb -> l_nvlr loc = len vl -> l_offset loc = hs + len vb ->
+  kv_records (map vlr_factory vl) = Ok vl' -> enc_vlrs false vl' = Ok vb' -> len vb' <> len vb ->
+  append_file hs v14 loc (vb ++ rest) npts newpts kel = Err ELaspy.
+Proof. exact append_refused_resized. Qed.
+Print Assumptions C08_append_refused_resized.
+
 (* a lookup with a dirty name field and a repeated class id, a WKT without its NUL, an unknown record and a
    GeoAscii record that is not ASCII, as VLRs: read in order; the first two parsed and normalised, the others raw *)
 Example C08_nonvacuous :
@@ -262,6 +325,26 @@ Example C08_nonvacuous :
   /\ match write_file 375 true (mkLoc 9 999 2 1000) [v1; v3] [7; 7; 7] (Some [v2]) with
      | Ok (loc, body) => l_nevlr loc = 1 /\ l_estart loc = len body + 375 - 62
          /\ read_file 375 true loc body = Ok ([List.hd (KRaw v3) ks; KRaw v3], Some [KKnown "WktCoordinateSystemVlr" UID_LASF_Projection 2112 [] (CWkt [97; 98])])
+     | Err _ => False
+     end
+  (* the file [v3] + 3 point bytes + 5 bytes of something else + the EVLR v3, read with and without seeking; then an
+     append session on it that appends nothing and replaces the EVLR by v4 followed by the one that was read: the file
+     ends behind the two records, the gap is gone; with a VLR that grows when written again (v2): refused *)
+  /\ match enc_vlrs false [v3], enc_vlrs true [v3] with
+     | Ok vb, Ok eb =>
+         let body := vb ++ [7; 7; 7] ++ [1; 2; 3; 4; 5] ++ eb in
+         let loc := mkLoc 1 (375 + 57) 1 (375 + 57 + 3 + 5) in
+         read_file 375 true loc body = Ok ([KRaw v3], Some [KRaw v3])
+         /\ read_file_from 375 true loc (375 + 57 + 3) body = Ok ([KRaw v3], Some [KRaw v3])
+         /\ match append_file 375 true loc body 3 [] (Some [KRaw v4; KRaw v3]) with
+            | Ok (loc', body') => loc' = mkLoc 1 (375 + 57) 2 (375 + 57 + 3) /\ len body' = 57 + 3 + 61 + 63
+                /\ read_file 375 true loc' body' = Ok ([KRaw v3], Some [KRaw v4; KRaw v3])
+            | Err _ => False
+            end
+     | _, _ => False
+     end
+  /\ match enc_vlrs false [v2] with
+     | Ok vb => append_file 375 true (mkLoc 1 (375 + len vb) 0 0) (vb ++ [7; 7; 7]) 3 [9] None = Err ELaspy
      | Err _ => False
      end.
 Proof. vm_compute. repeat split; reflexivity. Qed.
